@@ -246,6 +246,8 @@ def main(tier):
     rep.attempt(guardloop.check, rep, 'ALL', r'.', 55)
     import c14, llir
     rep.attempt(c14.check_stored_flush_reset, rep, llir.library('default'))
+    import c07
+    rep.attempt(c07.check_hist_keep, rep, llir.library('default'))        # a history that is believed but not kept is read in front of state->buffer
     rep.attempt(check_hashfill_bound, rep, llir.library('default'))      # a history that survives a full flush is read through next_in - dist in front of the next input buffer
     rep.analysed.update(asm_units=len(units), kernels=len(res), families=sorted({i['fam']['family'] for i in res.values()}),
                         memory_operands=sum(len(i['accesses']) for i in res.values()))
